@@ -55,6 +55,12 @@ def scenarios(tier, seed):
             sc = gen.with_tol(gen.base(m, a, b, abs(b - a) / 2.0))
             sc["ops"] = [{"op": "integrate", "cbs": [{"kind": "setdt", "vals": [abs(b - a) / (48.0 if not thorough else 200.0)]}]}]
             scs.append(sc)
+    # spans that are short relative to the magnitude of the times (epoch-like offsets, fine sampling late in a run) and tiny absolute spans
+    for m in ["RK4", "RK45CK", "ABAS5O6H", "BackwardEuler"] + (["DOPRI45", "Euler", "RadauIIA5", {"rich": "RK4", "levels": 3}] if thorough else []):
+        for (a, b) in ((1.0e4, 1.0e4 + 0.05), (1.0e4 + 0.05, 1.0e4), (-2451545.0, -2451546.0), (0.0, 1.0e-9), (5.0e-10, -5.0e-10)):
+            sc = gen.with_tol(gen.base(m, a, b, abs(b - a) / 5.0))
+            sc["ops"] = [{"op": "integrate", "t": a + (b - a) * 0.5}, {"op": "integrate"}]
+            scs.append(sc)
     # allocation failure: a request for more than 150 rows of storage raises MemoryError; the library falls back to blocks of 100 rows and
     # the run (400 steps) must be what it is without the fault
     for m in ["RK4", "RK45CK", "BackwardEuler"] + (["ABAS5O6H", "DOPRI45"] if thorough else []):
